@@ -26,7 +26,25 @@ func keyCoverRule(r *Report, p *Prog, rule string, fnName string, paramIdx int) 
 		r.bad(rule, fnName, p.pos(f.Pos()), "key parameter is not a struct")
 		return
 	}
-	// leaves of the key type
+	leaves := structLeaves(st)
+	read := map[string]bool{}
+	leafReads(p, prm, leaves, read)
+	var missing []string
+	for _, l := range leaves {
+		if !read[l] {
+			missing = append(missing, l)
+		}
+	}
+	key := fnKey(f) + ": reads every component of its key"
+	if len(missing) > 0 {
+		r.bad(rule, key, p.pos(f.Pos()), fmt.Sprintf("the lookup never reads %v of the key it is given: keys that differ only there are reported as the same entry, so something never added can be reported as found", missing))
+	} else {
+		r.ok(rule, key, p.pos(f.Pos()), fmt.Sprintf("all leaf components %v are read (whole-key comparisons and map indexing read all of them)", leaves))
+	}
+}
+
+// structLeaves lists the leaf field paths of a struct type.
+func structLeaves(st *types.Struct) []string {
 	var leaves []string
 	var walk func(prefix string, s *types.Struct)
 	walk = func(prefix string, s *types.Struct) {
@@ -40,7 +58,13 @@ func keyCoverRule(r *Report, p *Prog, rule string, fnName string, paramIdx int) 
 		}
 	}
 	walk("", st)
-	read := map[string]bool{}
+	return leaves
+}
+
+// leafReads marks in read the leaves of the struct value (or pointer to
+// struct, or cell holding it) v that the enclosing function reads. A
+// whole-struct use (==, map index, argument of an in-scope call) reads all.
+func leafReads(p *Prog, v0 ssa.Value, leaves []string, read map[string]bool) {
 	markAll := func(prefix string) {
 		for _, l := range leaves {
 			if strings.HasPrefix(l, prefix) {
@@ -48,7 +72,6 @@ func keyCoverRule(r *Report, p *Prog, rule string, fnName string, paramIdx int) 
 			}
 		}
 	}
-	// the parameter may live in a cell
 	var visit func(v ssa.Value, prefix string, depth int)
 	visit = func(v ssa.Value, prefix string, depth int) {
 		if depth > 10 {
@@ -119,19 +142,7 @@ func keyCoverRule(r *Report, p *Prog, rule string, fnName string, paramIdx int) 
 			}
 		}
 	}
-	visit(prm, "", 0)
-	var missing []string
-	for _, l := range leaves {
-		if !read[l] {
-			missing = append(missing, l)
-		}
-	}
-	key := fnKey(f) + ": reads every component of its key"
-	if len(missing) > 0 {
-		r.bad(rule, key, p.pos(f.Pos()), fmt.Sprintf("the lookup never reads %v of the key it is given: keys that differ only there are reported as the same entry, so something never added can be reported as found", missing))
-	} else {
-		r.ok(rule, key, p.pos(f.Pos()), fmt.Sprintf("all leaf components %v are read (whole-key comparisons and map indexing read all of them)", leaves))
-	}
+	visit(v0, "", 0)
 }
 
 // loopAccountPred is loopAccount with an arbitrary marker predicate on blocks.
